@@ -173,6 +173,8 @@ class EvaluateTaskActions(Unit):
     # ---------------------------------------------------------------- ground companion
     def run_ground(self, ctx, n):
         """Same obligations on concrete-length lists (quantifier-free): produces counterexamples."""
+        ctx.bounded_mode = True
+
         def thunk(e):
             e.register_input("n", n)
             sts = [e.register_input("st%d" % i, S.mk_const("st%d" % i, st.ALL_STATUSES)) for i in range(n)]
